@@ -6,6 +6,7 @@ from lib import pyvals as pv
 from props.rec_common import *  # noqa: F401,F403
 
 ID = "C02"
+LOG_LEVEL_INVARIANT = True      # (harness/vp.py: a sample of the cases again with logging at DEBUG; same observables)
 RUN_MODULE = "RunC02"
 RULE = ("constructed pairs (recorded program P, replayed program P'): P is a fault-free straight-line program with known "
         "literal results; P' asks for present and absent inputs/outputs; the FULL cross product of the missing-key options for "
